@@ -190,6 +190,17 @@ func genAuthPlan(r *rand.Rand, tier, focus string) *vfPlan {
 		add(vfStep{Op: "certgen", Sess: "s2", User: u, A: "x509", B: "user_p256_1"})
 		sessUser["s1"], sessUser["s2"] = u, u
 		n = 3 + r.IntN(5)
+	} else if focus == "C05" && p.Cfg.PwBackend != "okta" && chance(r, 0.05) {
+		// a push nobody answers is polled once the service has let it lapse (or has forgotten it)
+		u := pick(r, vfHonestUsers)
+		p.Steps = nil
+		add(vfStep{Op: "login", Sess: "s1", User: u})
+		add(vfStep{Op: "pushstart", Sess: "s1"})
+		add(vfStep{Op: "advance", D: pick(r, []string{"119s", "121s", "125s", "131s", "145s"})})
+		add(vfStep{Op: "pushpoll", Sess: "s1"})
+		add(vfStep{Op: "certgen", Sess: "s1", User: u, A: "x509", B: "user_p256_1"})
+		sessUser["s1"] = u
+		n = 3 + r.IntN(5)
 	} else if focus == "C05" && chance(r, 0.06) {
 		// a bootstrap OTP presented around the end of its life: seconds before, seconds after
 		u := pick(r, vfHonestUsers)
